@@ -14,6 +14,7 @@ import (
 	"net"
 	"net/http"
 	"sync"
+	"sync/atomic"
 	"testing"
 	"time"
 
@@ -45,11 +46,13 @@ func TestVP_C16_EarlyHintsInFlight(t *testing.T) {
 		followers := rapid.IntRange(1, 2).Draw(t, "followers")
 		links := rapid.IntRange(1, 3).Draw(t, "links")
 		handlerDone := make(chan error, 1)
+		var sawTimeout atomic.Bool // the handler found its request timed out when EarlyHints returned
 		inner := func(ctx *RequestCtx) {
 			for i := 0; i < links; i++ {
 				ctx.Response.Header.Add("Link", fmt.Sprintf("</style%d.css>; rel=preload", i))
 			}
 			err := ctx.EarlyHints()
+			sawTimeout.Store(ctx.LastTimeoutErrorResponse() != nil)
 			ctx.SetStatusCode(201)
 			ctx.SetBodyString("own-response-of-the-slow-handler")
 			handlerDone <- err
@@ -159,6 +162,17 @@ func TestVP_C16_EarlyHintsInFlight(t *testing.T) {
 				t.Fatalf("C16: the interim response carries %d Link fields, the handler set %d (%s)", got[0].link, links, desc)
 			}
 			i = 1
+		}
+		if got[i].status == 201 && got[i].body == "own-response-of-the-slow-handler" && !sawTimeout.Load() {
+			// the timeout had not fired when the handler finished (the sleep above ended, but this process' timers
+			// run late under load): nothing timed out, the handler's own response is the right one
+			for k, r := range got[i+1:] {
+				if r.status != 200 || r.body != fmt.Sprintf("plain:/f%d", k) {
+					t.Fatalf("C16: after the handler's response the connection carries %d %q where the response to request /f%d belongs (%s)", r.status, r.body, k, desc)
+				}
+			}
+			vpCase("early-hints-in-flight/timer-late-no-timeout", false, desc, func() string { return desc })
+			return
 		}
 		if got[i].status != wantStatus || got[i].body != "vp-timeout-message" {
 			t.Fatalf("C16: the first final response is %d %q, want the timeout response %d %q (%s)", got[i].status, got[i].body, wantStatus, "vp-timeout-message", desc)
